@@ -129,7 +129,7 @@ def run_case(case):
             except KeyError:
                 v, out = None, "exn KeyError"
             except Exception as e:  # noqa
-                v, out = False, "exn " + type(e).__name__
+                v, out = False, "exn " + common.exc_name(e)
                 res.fail("get-raised", "get(%r) raised %r" % (k, e))
             res.emit("smt.get 0 %s" % hx(k), out)
             if v is not False:
@@ -188,7 +188,7 @@ def run_case(case):
                 ret = None
             out = "ok"
         except Exception as e:  # noqa
-            ret, out = None, "exn " + type(e).__name__
+            ret, out = None, "exn " + common.exc_name(e)
             res.fail("write-raised", "%r raised %r" % (op, e))
         res.tags.add(kind)
         if out == "ok":
